@@ -621,6 +621,21 @@ class ProgGen:
             for st in path:
                 cur = {"i": lambda c, s: ["index", c, s[1]], "t": lambda c, s: ["tget", c, s[1]], "f": lambda c, s: ["field", c, s[1]]}[st[0]](cur, st)
             return (f"{text} {op}= {e.text};", ["assign", v["name"], path, ["bin", op, ty, cur, e.ast]])
+        if not pure and path and "impure" in self.features and self.rng.random() < 0.35:
+            # the value assigns to (another part of) the variable being assigned: `t.0 = { t.1 = x; 10 }`
+            # (the place is read after the value has been evaluated)
+            t2, p2, ty2 = self.target(v, d - 1)
+            e2 = self.expr(ty2, d - 1, True)
+            inner_t, inner_a = f"{t2} = {e2.text};", ["assign", v["name"], p2, e2.ast]
+            self.note("assign-value-assigns-same-var")
+            if self.rng.random() < 0.5:
+                e = E(f"{{ {inner_t} {e.text} }}", ["block", [inner_a, ["expr", e.ast]]])
+            else:
+                c = self.expr_nostruct(BOOL, d - 1, True) or E("true", ["bool", True])
+                o = self.expr(ty, d - 1, True)
+                e = E(f"if {self.cond_text(c)} {{ {inner_t} {e.text} }} else {{ {o.text} }}",
+                      ["if", c.ast, ["block", [inner_a, ["expr", e.ast]]], ["block", [["expr", o.ast]]]])
+            return (f"{text} = {e.text};", ["assign", v["name"], path, e.ast])
         e = self.maybe_untyped(e)
         return (f"{text} = {e.text};", ["assign", v["name"], path, e.ast])
 
